@@ -105,11 +105,26 @@ PICKS = [
  ("capella.ProcessWithdrawals", "err", "next_withdrawal_index = latest_withdrawal.index + 1"),
  ("capella.ProcessWithdrawals", "nextValidatorIndex", "(latest.validator_index + 1) % n  |  (next_index + MAX_VALIDATORS_PER_WITHDRAWALS_SWEEP) % n"),
  ("common.SetRecentRoots", "err", "state.block_roots[slot % SLOTS_PER_HISTORICAL_ROOT], state.state_roots[...]"),
+ # ---- swap-or-not shuffle (compute_shuffled_index and its whole-list form), samplers
+ ("common.innerPermuteIndex", "r", "inverse direction starts at the last round: rounds - 1"),
+ ("common.innerPermuteIndex", "pivot", "bytes_to_uint64(hash(seed + round)[0:8]) % index_count"),
+ ("common.innerPermuteIndex", "flip", "(pivot + index_count - index) % index_count"),
+ ("common.innerPermuteIndex", "byteV", "source[(position % 256) // 8]"),
+ ("common.innerPermuteIndex", "bitV", "(byte >> (position % 8)) % 2"),
+ ("common.innerShuffleList", "r", "inverse direction starts at the last round: rounds - 1"),
+ ("common.innerShuffleList", "pivot", "bytes_to_uint64(hash(seed + round)[0:8]) % index_count"),
+ ("common.innerShuffleList", "mirror", "(pivot + 1) >> 1 for the first segment, (pivot + list_size + 1) >> 1 for the second"),
+ ("common.innerShuffleList", "end", "list_size - 1"),
+ ("common.innerShuffleList", "byteV", "source[(j % 256) // 8], primed from the segment's first position (pivot, then end)"),
+ ("common.innerShuffleList", "bitV", "(byte >> (j % 8)) % 2"),
+ ("common.ComputeProposerIndex", "absI", "candidate i of batch: (batch*32 + j) % total"),
+ ("common.ComputeSyncCommitteeIndices", "shuffledIndex", "compute_shuffled_index(i % active_validator_count, active_validator_count, seed)"),
+ ("common.ComputeSyncCommitteeIndices", "randomByte", "hash(seed + uint_to_bytes(i // 32))[i % 32]"),
 ]
 def gq(s): return '"' + s.replace("\\", "\\\\").replace('"', '\\"') + '"'
 rows = {}
 for line in subprocess.check_output(["/verif/bin/zrntlint", "formulas"]).decode().splitlines():
-    p = line.split("|")
+    p = line.split("\t")
     if len(p) < 6: continue
     rows.setdefault((p[0], p[1]), []).append((p[2], p[3], p[4]))
 out = ["package main", "", "// Generated by gen_formula_table.py from reviewed picks; literal data, independent of the tree at check time.", "",
